@@ -31,7 +31,7 @@ BAND = Fraction(1, 100000)
 def _metrics():
     """params (shared) and ops (per invocation) of plinio.cost, plus the two crossed variants
     (params charged per invocation, ops charged once) to separate `shared` from shape dependence."""
-    from plinio.cost import CostSpec, params, ops
+    from plinio.cost import CostSpec, params, ops, gap8_latency
 
     def clone(spec, shared):
         cs = CostSpec(shared=shared, default_behavior='zero')
@@ -39,11 +39,12 @@ def _metrics():
             for constr, fn in lst:
                 cs[(pat, constr)] = fn
         return cs
-    return {'params': params, 'ops': ops, 'params_pi': clone(params, False), 'ops_sh': clone(ops, True)}
+    return {'params': params, 'ops': ops, 'params_pi': clone(params, False), 'ops_sh': clone(ops, True),
+            'gap8': gap8_latency}
 
 
-METRIC_NAMES = ['params', 'ops', 'params_pi', 'ops_sh']
-SHARED = {'params': True, 'ops': False, 'params_pi': False, 'ops_sh': True}
+METRIC_NAMES = ['params', 'ops', 'params_pi', 'ops_sh', 'gap8']
+SHARED = {'params': True, 'ops': False, 'params_pi': False, 'ops_sh': True, 'gap8': True}
 
 
 def _unit(spec_obj, layer, shape):
@@ -86,6 +87,13 @@ def _corpus_specs():
     # the K8 witness of DESIGN section 6: conv3x3 block used at two resolutions
     out.append({'C': 4, 'hw': 8, 'wseed': 21, 'fixed_twice': False, 'blocks': [
         {'br': ['conv3', 'conv1'], 'use': 'twice-pool', 'gumbel': False, 'hard_ctor': False, 'post': 'none'}]})
+    # a depthwise convolution FIRST in graph order, regular convolutions of the same class after it (stem,
+    # branches, fixed layers): a cost function chosen per layer TYPE instead of per layer shows here
+    out.append({'C': 4, 'hw': 8, 'wseed': 26, 'fixed_twice': True, 'dw_stem': True, 'blocks': [
+        {'br': ['dwsep', 'conv3', 'id', 'dw3'], 'use': 'once', 'gumbel': False, 'hard_ctor': False, 'post': 'conv'}]})
+    out.append({'C': 3, 'hw': 4, 'wseed': 27, 'fixed_twice': False, 'dw_stem': True, 'blocks': [
+        {'br': ['conv5', 'dwsep', 'ub'], 'use': 'twice', 'gumbel': True, 'hard_ctor': False, 'post': 'relu'},
+        {'br': ['dw3', 'seq'], 'use': 'once', 'gumbel': False, 'hard_ctor': True, 'post': 'none'}]})
     # a user block that invokes one of its layers twice
     out.append({'C': 4, 'hw': 8, 'wseed': 25, 'fixed_twice': False, 'blocks': [
         {'br': ['ub2x', 'id', 'conv1'], 'use': 'once', 'gumbel': False, 'hard_ctor': False, 'post': 'none'}]})
@@ -486,7 +494,9 @@ def _judge(spec, rec, model):
 def run(chk):
     chk.rule = ('the SuperNets of C03 (1..3 blocks x 2..12 branches of 16 kinds, used once / twice / twice at '
                 'another resolution, softmax or Gumbel sampler) x full_cost on/off x metrics {params (shared), ops '
-                '(per invocation), params charged per invocation, ops charged once}; (a) sampling configurations: '
+                '(per invocation), params charged per invocation, ops charged once, gap8_latency}; a third of the '
+                'networks start with a DEPTHWISE convolution, so that depthwise precedes regular convolutions of the '
+                'same class in graph order (the other order is always present: regular stem, dw3 / dwsep branches); (a) sampling configurations: '
                 'random alpha of three styles, T in {0.05,0.3,1,3,20}, train/eval, hard on/off -> cost vs exact mix of '
                 'the float32 theta the combiners hold, vs real cost of the cheapest/most expensive selection (true '
                 'min/max over all selections when <= 64); (b) hard selection at every winner combination (all when '
@@ -495,7 +505,7 @@ def run(chk):
     chk.trusted.append('the unit cost of a leaf at a given output shape is obtained from the CostSpec under test '
                        '(C15/C16 cover it); float32 accumulation of the soft mix (compared inside a 1e-5 band)')
     chk.prove()
-    n_random, n_combos, n_soft = (70, 8, 3) if chk.quick else (900, 24, 6)
+    n_random, n_combos, n_soft = (60, 8, 3) if chk.quick else (800, 24, 6)
     items = _items(chk.rng, n_random, n_combos, n_soft)
     results = common.pmap(_work, items)
     lines, flat = [], []
